@@ -62,7 +62,9 @@ impl<'a> TreeWalkingInterpreter<'a> {
             (Operator::And, Ok(left)) => self.boolean::<true>(&left, right),
             (Operator::And, Err(Error::UndefinedVariable(_))) => Ok(Value::Boolean(false)), // short circuit to false
             (Operator::Or, Ok(left)) => self.boolean::<false>(&left, right),
-            (Operator::Or, Err(Error::UndefinedVariable(_))) => self.expression(right), // evaluate right side
+            (Operator::Or, Err(Error::UndefinedVariable(_))) => {
+                self.boolean::<false>(&Value::Boolean(false), right) // evaluate right side as boolean
+            }
             (_, Ok(left)) => {
                 let right = self.expression(right);
 
